@@ -1,5 +1,901 @@
 import XV.Model.QcTree
+/-!
+C15 — the pending-proposal tree stays a tree; certified and committed markers only advance.
+
+Everything is about `XV.QcTree` (the model of the repaired code).  `W` is the world
+(content of every proposal id); the only assumption on it is that parent ids are
+acyclic (`Acyclic W`: ids are hashes that cover the parent id).
+-/
 namespace XV.C15
 open XV.QcTree
+
+/-! ### descendants in the flat `sons` map -/
+
+/-- `x` is in the subtree of `a` -/
+inductive Desc (sons : Nat → List Nat) : Nat → Nat → Prop
+  | refl (a : Nat) : Desc sons a a
+  | step {a c x : Nat} : c ∈ sons a → Desc sons c x → Desc sons a x
+
+theorem Desc.trans {sons a b c} (h1 : Desc sons a b) (h2 : Desc sons b c) : Desc sons a c := by
+  induction h1 with
+  | refl => exact h2
+  | step hc _ ih => exact Desc.step hc (ih h2)
+
+theorem Desc.tail {sons a b c} (h1 : Desc sons a b) (hc : c ∈ sons b) : Desc sons a c :=
+  h1.trans (Desc.step hc (Desc.refl c))
+
+/-- a set that contains `a` and is closed under the edges contains every descendant of `a` -/
+theorem Desc.closed {sons : Nat → List Nat} {S : Nat → Prop} (hS : ∀ b c, S b → c ∈ sons b → S c)
+    {a x} (h : Desc sons a x) (ha : S a) : S x := by
+  induction h with
+  | refl => exact ha
+  | step hc _ ih => exact ih (hS _ _ ha hc)
+
+/-- induction from the tail end -/
+theorem Desc.tail_induction {sons : Nat → List Nat} {a : Nat} {P : Nat → Prop} (h0 : P a)
+    (hs : ∀ b c, Desc sons a b → P b → c ∈ sons b → P c) {x} (h : Desc sons a x) : P x := by
+  have : Desc sons a x ∧ P x := by
+    refine Desc.closed (S := fun y => Desc sons a y ∧ P y) ?_ h ⟨Desc.refl a, h0⟩
+    intro b c ⟨hb, hp⟩ hc
+    exact ⟨hb.tail hc, hs b c hb hp hc⟩
+  exact this.2
+
+/-- either trivial or ends with an edge -/
+theorem Desc.cases_tail {sons a x} (h : Desc sons a x) : x = a ∨ ∃ b, Desc sons a b ∧ x ∈ sons b := by
+  refine Desc.tail_induction (P := fun x => x = a ∨ ∃ b, Desc sons a b ∧ x ∈ sons b) (Or.inl rfl) ?_ h
+  intro b c hb _ hc
+  exact Or.inr ⟨b, hb, hc⟩
+
+/-- paths that use only edges present in `sons'` -/
+theorem Desc.mono {sons sons' : Nat → List Nat} {S : Nat → Prop}
+    (hS : ∀ b c, S b → c ∈ sons b → S c) (hsub : ∀ b c, S b → c ∈ sons b → c ∈ sons' b)
+    {a x} (h : Desc sons a x) (ha : S a) : Desc sons' a x := by
+  induction h with
+  | refl => exact Desc.refl _
+  | step hc _ ih => exact Desc.step (hsub _ _ ha hc) (ih (hS _ _ ha hc))
+
+/-! ### the fuelled search against `Desc` -/
+
+theorem dfs_sound {sons : Nat → List Nat} : ∀ {f n t}, dfs sons f n t = true → Desc sons n t := by
+  intro f
+  induction f with
+  | zero => intro n t h; simp [dfs] at h
+  | succ f ih =>
+    intro n t h
+    unfold dfs at h
+    split at h
+    · rename_i e; subst e; exact Desc.refl _
+    · rw [List.any_eq_true] at h
+      obtain ⟨c, hc, hd⟩ := h
+      exact Desc.step hc (ih hd)
+
+/-- explicit paths: the list of the nodes after the start, ending in the target -/
+inductive Path (sons : Nat → List Nat) : Nat → List Nat → Nat → Prop
+  | nil (a : Nat) : Path sons a [] a
+  | cons {a c x : Nat} {l : List Nat} : c ∈ sons a → Path sons c l x → Path sons a (c :: l) x
+
+theorem Path.of_desc {sons a x} (h : Desc sons a x) : ∃ l, Path sons a l x := by
+  induction h with
+  | refl => exact ⟨[], Path.nil _⟩
+  | step hc _ ih => obtain ⟨l, hl⟩ := ih; exact ⟨_ :: l, Path.cons hc hl⟩
+
+theorem Path.desc {sons a l x} (h : Path sons a l x) : Desc sons a x := by
+  induction h with
+  | nil => exact Desc.refl _
+  | cons hc _ ih => exact Desc.step hc ih
+
+theorem Path.mem_desc {sons a l x} (h : Path sons a l x) : ∀ y ∈ l, Desc sons a y := by
+  induction h with
+  | nil => intro y hy; simp at hy
+  | cons hc _ ih =>
+    intro y hy
+    rcases List.mem_cons.mp hy with e | hy
+    · subst e; exact Desc.step hc (Desc.refl _)
+    · exact Desc.step hc (ih y hy)
+
+theorem dfs_of_path {sons : Nat → List Nat} {a l x} (h : Path sons a l x) :
+    ∀ f, l.length < f → dfs sons f a x = true := by
+  induction h with
+  | nil a => intro f hf; cases f with
+    | zero => omega
+    | succ f => simp [dfs]
+  | cons hc _ ih =>
+    intro f hf
+    cases f with
+    | zero => omega
+    | succ f =>
+      unfold dfs
+      split
+      · rfl
+      · rw [List.any_eq_true]
+        exact ⟨_, hc, ih f (by simp at hf; omega)⟩
+
+/-! ### acyclic parent ids bound the depth of every path by the number of placed ids -/
+
+/-- parent ids are acyclic (an id is a hash that covers its parent id) -/
+def Acyclic (W : World) : Prop := ∃ rk : Nat → Nat, ∀ x p, (W x).parent = some p → rk p < rk x
+
+/-- every edge of the `sons` map agrees with the `ParentId` of the son -/
+def EdgeOK (W : World) (sons : Nat → List Nat) : Prop := ∀ a c, c ∈ sons a → (W c).parent = some a
+
+section rank
+variable {W : World} {rk : Nat → Nat} (hrk : ∀ x p, (W x).parent = some p → rk p < rk x)
+include hrk
+
+theorem desc_rank {sons a x} (he : EdgeOK W sons) (h : Desc sons a x) : x = a ∨ rk a < rk x := by
+  induction h with
+  | refl => exact Or.inl rfl
+  | step hc _ ih =>
+    have h1 := hrk _ _ (he _ _ hc)
+    rcases ih with e | h2
+    · subst e; exact Or.inr h1
+    · exact Or.inr (Nat.lt_trans h1 h2)
+
+theorem desc_rank_le {sons a x} (he : EdgeOK W sons) (h : Desc sons a x) : rk a ≤ rk x := by
+  rcases desc_rank hrk he h with e | h
+  · subst e; exact Nat.le_refl _
+  · exact Nat.le_of_lt h
+
+theorem path_nodup {sons a l x} (he : EdgeOK W sons) (h : Path sons a l x) : (a :: l).Nodup := by
+  induction h with
+  | nil => simp
+  | @cons a c x l hc hp ih =>
+    refine List.nodup_cons.mpr ⟨?_, ih⟩
+    intro hmem
+    have hd : Desc sons c a := by
+      rcases List.mem_cons.mp hmem with e | hm
+      · subst e; exact Desc.refl _
+      · exact hp.mem_desc a hm
+    have h1 := hrk _ _ (he _ _ hc)
+    have h2 := desc_rank_le hrk he hd
+    omega
+
+theorem dfs_complete {sons a x} {tbl : List Nat} (he : EdgeOK W sons)
+    (hT : ∀ y, Desc sons a y → y ∈ tbl) (h : Desc sons a x) : dfs sons tbl.length a x = true := by
+  obtain ⟨l, hl⟩ := Path.of_desc h
+  apply dfs_of_path hl
+  have hnd := path_nodup hrk he hl
+  have hsub : (a :: l) ⊆ tbl := by
+    intro y hy
+    rcases List.mem_cons.mp hy with e | hy
+    · subst e; exact hT _ (Desc.refl _)
+    · exact hT _ (hl.mem_desc y hy)
+  have := List.Nodup.length_le_of_subset hnd hsub
+  simp at this
+  omega
+
+end rank
+
+/-! ### the invariant -/
+
+def InMain (s : St) (x : Nat) : Prop := Desc s.sons s.root x
+def InOrph (s : St) (x : Nat) : Prop := ∃ r, r ∈ s.orphans ∧ Desc s.sons r x
+/-- `x` is stored: in the tree below Root or in the orphan forest -/
+def Stored (s : St) (x : Nat) : Prop := InMain s x ∨ InOrph s x
+
+structure Inv (W : World) (s : St) : Prop where
+  edge : EdgeOK W s.sons
+  sonsNodup : ∀ a, (s.sons a).Nodup
+  orphNodup : s.orphans.Nodup
+  top : ∀ a c, Stored s a → c ∈ s.sons a → c ≠ s.root ∧ c ∉ s.orphans
+  rootNotOrph : s.root ∉ s.orphans
+  orphParent : ∀ r, r ∈ s.orphans → ∀ p, (W r).parent = some p → ¬ Stored s p
+  omap : ∀ x, InOrph s x → x ∈ s.omap
+  tbl : ∀ x, Stored s x → x ∈ s.tbl
+
+theorem Stored.son {s : St} {a c} (h : Stored s a) (hc : c ∈ s.sons a) : Stored s c := by
+  rcases h with h | ⟨r, hr, h⟩
+  · exact Or.inl (Desc.tail h hc)
+  · exact Or.inr ⟨r, hr, Desc.tail h hc⟩
+
+theorem Stored.desc {s : St} {a x} (h : Stored s a) (hx : Desc s.sons a x) : Stored s x := by
+  rcases h with h | ⟨r, hr, h⟩
+  · exact Or.inl (Desc.trans h hx)
+  · exact Or.inr ⟨r, hr, Desc.trans h hx⟩
+
+theorem Inv.of_eq {W : World} {s s' : St} (h : Inv W s) (h1 : s'.sons = s.sons) (h2 : s'.root = s.root)
+    (h3 : s'.orphans = s.orphans) (h4 : s'.omap = s.omap) (h5 : s'.tbl = s.tbl) : Inv W s' := by
+  have hm : ∀ x, InMain s' x ↔ InMain s x := by intro x; unfold InMain; rw [h1, h2]
+  have ho : ∀ x, InOrph s' x ↔ InOrph s x := by intro x; unfold InOrph; rw [h1, h3]
+  have hs : ∀ x, Stored s' x ↔ Stored s x := by intro x; unfold Stored; rw [hm, ho]
+  constructor
+  · rw [h1]; exact h.edge
+  · rw [h1]; exact h.sonsNodup
+  · rw [h3]; exact h.orphNodup
+  · intro a c ha hc; rw [h2, h3]; rw [h1] at hc; exact h.top a c ((hs a).mp ha) hc
+  · rw [h2, h3]; exact h.rootNotOrph
+  · intro r hr p hp hst; rw [h3] at hr; exact h.orphParent r hr p hp ((hs p).mp hst)
+  · intro x hx; rw [h4]; exact h.omap x ((ho x).mp hx)
+  · intro x hx; rw [h5]; exact h.tbl x ((hs x).mp hx)
+
+/-- no id is both in the tree and in the orphan forest, and no id is in two orphan trees -/
+theorem Inv.top_unique {W : World} {s : St} (h : Inv W s) {t1 t2 x : Nat}
+    (ht1 : t1 = s.root ∨ t1 ∈ s.orphans) (ht2 : t2 = s.root ∨ t2 ∈ s.orphans)
+    (h1 : Desc s.sons t1 x) (h2 : Desc s.sons t2 x) : t1 = t2 := by
+  have st1 : Stored s t1 := by
+    rcases ht1 with e | e
+    · exact Or.inl (e ▸ Desc.refl _)
+    · exact Or.inr ⟨t1, e, Desc.refl _⟩
+  have st2 : Stored s t2 := by
+    rcases ht2 with e | e
+    · exact Or.inl (e ▸ Desc.refl _)
+    · exact Or.inr ⟨t2, e, Desc.refl _⟩
+  have notson : ∀ t, (t = s.root ∨ t ∈ s.orphans) → ∀ b, Stored s b → t ∈ s.sons b → False := by
+    intro t ht b hb hc
+    have := h.top b t hb hc
+    rcases ht with e | e
+    · exact this.1 e
+    · exact this.2 e
+  revert h2
+  refine Desc.tail_induction (P := fun x => Desc s.sons t2 x → t1 = t2) ?_ ?_ h1
+  · intro h2
+    rcases h2.cases_tail with e | ⟨b, hb, hc⟩
+    · exact e
+    · exact (notson t1 ht1 b (st2.desc hb) hc).elim
+  · intro b c hb ih hc h2
+    rcases h2.cases_tail with e | ⟨b', hb', hc'⟩
+    · subst e; exact (notson c ht2 b (st1.desc hb) hc).elim
+    · have e1 := h.edge _ _ hc
+      have e2 := h.edge _ _ hc'
+      have : b = b' := by rw [e1] at e2; exact Option.some.inj e2
+      subst this
+      exact ih hb'
+
+section rank2
+variable {W : World} {rk : Nat → Nat} (hrk : ∀ x p, (W x).parent = some p → rk p < rk x)
+include hrk
+
+theorem inMain_iff {s : St} (h : Inv W s) (x : Nat) : inMain s x = true ↔ InMain s x := by
+  constructor
+  · exact dfs_sound
+  · intro hx
+    exact dfs_complete hrk h.edge (fun y hy => h.tbl y (Or.inl hy)) hx
+
+theorem inTree_iff {s : St} (h : Inv W s) {r : Nat} (hr : r ∈ s.orphans) (x : Nat) :
+    inTree s r x = true ↔ Desc s.sons r x := by
+  constructor
+  · exact dfs_sound
+  · intro hx
+    exact dfs_complete hrk h.edge (fun y hy => h.tbl y (Or.inr ⟨r, hr, hy⟩)) hx
+
+end rank2
+
+/-! ### placing a new node (the common shape of `insert` into the tree / under an orphan / as a new orphan root) -/
+
+def place (s : St) (node p : Nat) (kids rest : List Nat) (attach : Bool) (om : List Nat) : St :=
+  { s with sons := if attach then upd (upd s.sons node kids) p (s.sons p ++ [node]) else upd s.sons node kids,
+           orphans := if attach then rest else rest ++ [node], omap := om, tbl := addTbl s.tbl node }
+
+theorem mem_addTbl {tbl : List Nat} {x y : Nat} : y ∈ addTbl tbl x ↔ y ∈ tbl ∨ y = x := by
+  unfold addTbl
+  split
+  · constructor
+    · exact Or.inl
+    · rintro (h | h)
+      · exact h
+      · subst h; assumption
+  · simp [List.mem_cons, or_comm]
+
+structure PlaceHyp (W : World) (s : St) (node p : Nat) (kids rest : List Nat) (attach : Bool) (om : List Nat) : Prop where
+  inv : Inv W s
+  par : (W node).parent = some p
+  ne : p ≠ node
+  fresh : ¬ Stored s node
+  kidsSub : ∀ k, k ∈ kids → k ∈ s.orphans ∧ (W k).parent = some node
+  restSub : ∀ r, r ∈ rest → r ∈ s.orphans ∧ (W r).parent ≠ some node
+  kidsNodup : kids.Nodup
+  restNodup : rest.Nodup
+  kidsNotAbove : ∀ k, k ∈ kids → ¬ Desc s.sons k p
+  omSub : ∀ x, x ∈ s.omap → x ∈ om
+  cases : (attach = true ∧ InMain s p) ∨
+          (attach = true ∧ (∃ r, r ∈ rest ∧ Desc s.sons r p) ∧ node ∈ om) ∨
+          (attach = false ∧ ¬ InMain s p ∧ (∀ r, r ∈ rest → ¬ Desc s.sons r p) ∧ node ∈ om)
+
+section place
+variable {W : World} {s : St} {node p : Nat} {kids rest : List Nat} {attach : Bool} {om : List Nat}
+
+theorem PlaceHyp.storedP (h : PlaceHyp W s node p kids rest attach om) (ha : attach = true) : Stored s p := by
+  rcases h.cases with ⟨_, h1⟩ | ⟨_, ⟨r, hr, hd⟩, _⟩ | ⟨hf, _⟩
+  · exact Or.inl h1
+  · exact Or.inr ⟨r, (h.restSub r hr).1, hd⟩
+  · rw [ha] at hf; cases hf
+
+/-- the edges of the new `sons` map -/
+theorem place_sons_sub (hne : p ≠ node) {b c : Nat}
+    (hc : c ∈ (place s node p kids rest attach om).sons b) :
+    (b = node ∧ c ∈ kids) ∨ (attach = true ∧ b = p ∧ c = node) ∨ (b ≠ node ∧ c ∈ s.sons b) := by
+  unfold place at hc
+  simp only at hc
+  cases attach with
+  | true =>
+    simp only [if_true, upd] at hc
+    by_cases hb : b = p
+    · subst hb
+      simp only [if_true] at hc
+      rcases List.mem_append.mp hc with h | h
+      · exact Or.inr (Or.inr ⟨hne, h⟩)
+      · simp at h; exact Or.inr (Or.inl ⟨rfl, rfl, h⟩)
+    · simp only [hb, if_false] at hc
+      by_cases hn : b = node
+      · simp only [hn, if_true] at hc; exact Or.inl ⟨hn, hc⟩
+      · simp only [hn, if_false] at hc; exact Or.inr (Or.inr ⟨hn, hc⟩)
+  | false =>
+    simp only [upd, Bool.false_eq_true, if_false] at hc
+    by_cases hn : b = node
+    · simp only [hn, if_true] at hc; exact Or.inl ⟨hn, hc⟩
+    · simp only [hn, if_false] at hc; exact Or.inr (Or.inr ⟨hn, hc⟩)
+
+theorem place_sons_old (hne : p ≠ node) {b c : Nat} (hb : b ≠ node) (hc : c ∈ s.sons b) :
+    c ∈ (place s node p kids rest attach om).sons b := by
+  unfold place
+  simp only
+  cases attach with
+  | true =>
+    simp only [if_true, upd]
+    by_cases hbp : b = p
+    · subst hbp; simp only [if_true]; exact List.mem_append.mpr (Or.inl hc)
+    · simp only [hbp, hb, if_false]; exact hc
+  | false =>
+    simp only [upd, Bool.false_eq_true, if_false, hb]; exact hc
+
+theorem place_sons_kid (hne : p ≠ node) {k : Nat} (hk : k ∈ kids) :
+    k ∈ (place s node p kids rest attach om).sons node := by
+  unfold place
+  simp only
+  cases attach with
+  | true => simp only [if_true, upd, Ne.symm hne, if_false]; exact hk
+  | false => simp only [upd, Bool.false_eq_true, if_false, if_true]; exact hk
+
+theorem place_sons_node {kids rest om} : node ∈ (place s node p kids rest true om).sons p := by
+  unfold place
+  simp [upd]
+
+/-- what can be stored after the placement -/
+def Q (s : St) (node : Nat) (kids rest : List Nat) (x : Nat) : Prop :=
+  InMain s x ∨ (∃ r, r ∈ rest ∧ Desc s.sons r x) ∨ x = node ∨ (∃ k, k ∈ kids ∧ Desc s.sons k x)
+
+theorem Q_closed (hne : p ≠ node) {b c : Nat} (hb : Q s node kids rest b)
+    (hc : c ∈ (place s node p kids rest attach om).sons b) : Q s node kids rest c := by
+  rcases place_sons_sub hne hc with ⟨_, hk⟩ | ⟨_, _, e⟩ | ⟨hbn, hcs⟩
+  · exact Or.inr (Or.inr (Or.inr ⟨c, hk, Desc.refl _⟩))
+  · exact Or.inr (Or.inr (Or.inl e))
+  · rcases hb with h | ⟨r, hr, h⟩ | h | ⟨k, hk, h⟩
+    · exact Or.inl (Desc.tail h hcs)
+    · exact Or.inr (Or.inl ⟨r, hr, Desc.tail h hcs⟩)
+    · exact (hbn h).elim
+    · exact Or.inr (Or.inr (Or.inr ⟨k, hk, Desc.tail h hcs⟩))
+
+theorem place_orphans_mem {r : Nat} (hr : r ∈ (place s node p kids rest attach om).orphans) :
+    r ∈ rest ∨ (attach = false ∧ r = node) := by
+  unfold place at hr
+  simp only at hr
+  cases attach with
+  | true => simp only [if_true] at hr; exact Or.inl hr
+  | false =>
+    simp only [Bool.false_eq_true, if_false] at hr
+    rcases List.mem_append.mp hr with h | h
+    · exact Or.inl h
+    · simp at h; exact Or.inr ⟨rfl, h⟩
+
+theorem place_stored_Q (hne : p ≠ node) {x : Nat}
+    (hx : Stored (place s node p kids rest attach om) x) : Q s node kids rest x := by
+  rcases hx with h | ⟨r, hr, h⟩
+  · refine Desc.closed (S := Q s node kids rest) (fun b c hb hc => Q_closed hne hb hc) h ?_
+    exact Or.inl (Desc.refl _)
+  · refine Desc.closed (S := Q s node kids rest) (fun b c hb hc => Q_closed hne hb hc) h ?_
+    rcases place_orphans_mem hr with h | ⟨_, e⟩
+    · exact Or.inr (Or.inl ⟨r, h, Desc.refl _⟩)
+    · exact Or.inr (Or.inr (Or.inl e))
+
+theorem PlaceHyp.Q_stored (h : PlaceHyp W s node p kids rest attach om) {x : Nat}
+    (hx : Q s node kids rest x) : Stored s x ∨ x = node := by
+  rcases hx with h1 | ⟨r, hr, h1⟩ | h1 | ⟨k, hk, h1⟩
+  · exact Or.inl (Or.inl h1)
+  · exact Or.inl (Or.inr ⟨r, (h.restSub r hr).1, h1⟩)
+  · exact Or.inr h1
+  · exact Or.inl (Or.inr ⟨k, (h.kidsSub k hk).1, h1⟩)
+
+/-- old paths from stored nodes survive (they never pass through the fresh `node`) -/
+theorem PlaceHyp.desc_old (h : PlaceHyp W s node p kids rest attach om) {a x : Nat} (ha : Stored s a)
+    (hx : Desc s.sons a x) : Desc (place s node p kids rest attach om).sons a x := by
+  refine Desc.mono (S := Stored s) (fun b c hb hc => hb.son hc) ?_ hx ha
+  intro b c hb hc
+  refine place_sons_old h.ne ?_ hc
+  intro e; subst e; exact h.fresh hb
+
+theorem PlaceHyp.node_not_rest (h : PlaceHyp W s node p kids rest attach om) : node ∉ rest := by
+  intro hm
+  exact h.fresh (Or.inr ⟨node, (h.restSub node hm).1, Desc.refl _⟩)
+
+theorem PlaceHyp.root_ne (h : PlaceHyp W s node p kids rest attach om) : s.root ≠ node := by
+  intro e
+  exact h.fresh (Or.inl (e ▸ Desc.refl _))
+
+theorem place_inv (h : PlaceHyp W s node p kids rest attach om) :
+    Inv W (place s node p kids rest attach om) := by
+  have hI := h.inv
+  have hne := h.ne
+  constructor
+  · -- edge
+    intro b c hc
+    rcases place_sons_sub hne hc with ⟨e, hk⟩ | ⟨_, e1, e2⟩ | ⟨_, hcs⟩
+    · subst e; exact (h.kidsSub c hk).2
+    · subst e1; subst e2; exact h.par
+    · exact hI.edge b c hcs
+  · -- sonsNodup
+    intro b
+    unfold place
+    simp only
+    cases hat : attach with
+    | true =>
+      simp only [if_true, upd]
+      by_cases hb : b = p
+      · subst hb
+        simp only [if_true]
+        refine List.nodup_append.mpr ⟨hI.sonsNodup b, by simp, ?_⟩
+        intro x hx y hy
+        simp at hy; subst hy
+        intro e; subst e
+        exact h.fresh ((h.storedP hat).son hx)
+      · simp only [hb, if_false]
+        by_cases hn : b = node
+        · simp only [hn, if_true]; exact h.kidsNodup
+        · simp only [hn, if_false]; exact hI.sonsNodup b
+    | false =>
+      simp only [upd, Bool.false_eq_true, if_false]
+      by_cases hn : b = node
+      · simp only [hn, if_true]; exact h.kidsNodup
+      · simp only [hn, if_false]; exact hI.sonsNodup b
+  · -- orphNodup
+    unfold place
+    simp only
+    cases attach with
+    | true => simp only [if_true]; exact h.restNodup
+    | false =>
+      simp only [Bool.false_eq_true, if_false]
+      refine List.nodup_append.mpr ⟨h.restNodup, by simp, ?_⟩
+      intro x hx y hy
+      simp at hy; subst hy
+      intro e; subst e
+      exact h.node_not_rest hx
+  · -- top
+    intro a c ha hc
+    have hQ := place_stored_Q hne ha
+    have notin : c ≠ node → c ∉ rest → c ∉ (place s node p kids rest attach om).orphans := by
+      intro h1 h2 hm
+      rcases place_orphans_mem hm with h3 | ⟨_, h3⟩
+      · exact h2 h3
+      · exact h1 h3
+    change c ≠ s.root ∧ _
+    rcases place_sons_sub hne hc with ⟨_, hk⟩ | ⟨hat, _, e2⟩ | ⟨han, hcs⟩
+    · have hk' := h.kidsSub c hk
+      refine ⟨?_, notin ?_ ?_⟩
+      · intro e; rw [e] at hk'; exact hI.rootNotOrph hk'.1
+      · intro e; subst e; exact h.fresh (Or.inr ⟨c, hk'.1, Desc.refl _⟩)
+      · intro hr; exact (h.restSub c hr).2 hk'.2
+    · subst e2
+      refine ⟨fun e => h.root_ne e.symm, ?_⟩
+      intro hm
+      rcases place_orphans_mem hm with h3 | ⟨h3, _⟩
+      · exact h.node_not_rest h3
+      · rw [hat] at h3; cases h3
+    · have hsa : Stored s a := by
+        rcases h.Q_stored hQ with h1 | h1
+        · exact h1
+        · exact (han h1).elim
+      have := hI.top a c hsa hcs
+      refine ⟨this.1, notin ?_ ?_⟩
+      · intro e; subst e; exact h.fresh (hsa.son hcs)
+      · intro hr; exact this.2 (h.restSub c hr).1
+  · -- rootNotOrph
+    intro hm
+    change s.root ∈ _ at hm
+    rcases place_orphans_mem hm with h3 | ⟨_, h3⟩
+    · exact hI.rootNotOrph (h.restSub _ h3).1
+    · exact h.root_ne h3
+  · -- orphParent
+    intro r hr q hq hst
+    have hQ := place_stored_Q hne hst
+    rcases place_orphans_mem hr with h3 | ⟨hat, e⟩
+    · have h4 := h.restSub r h3
+      rcases h.Q_stored hQ with h5 | h5
+      · exact hI.orphParent r h4.1 q hq h5
+      · subst h5; exact h4.2 hq
+    · subst e
+      have : q = p := by have := h.par; rw [hq] at this; exact Option.some.inj this
+      subst this
+      rcases h.cases with ⟨hf, _⟩ | ⟨hf, _⟩ | ⟨_, hnm, hnr, _⟩
+      · rw [hat] at hf; cases hf
+      · rw [hat] at hf; cases hf
+      · rcases hQ with h1 | ⟨r', hr', h1⟩ | h1 | ⟨k, hk, h1⟩
+        · exact hnm h1
+        · exact hnr r' hr' h1
+        · exact hne h1
+        · exact h.kidsNotAbove k hk h1
+  · -- omap
+    intro x hx
+    change x ∈ om
+    obtain ⟨r, hr, hd⟩ := hx
+    rcases h.cases with ⟨hat, hmain⟩ | hrest
+    · -- attached below the tree: the orphan forest only shrinks
+      subst hat
+      have hr' : r ∈ rest := by
+        rcases place_orphans_mem hr with h3 | ⟨h3, _⟩
+        · exact h3
+        · cases h3
+      have : ∃ r', r' ∈ rest ∧ Desc s.sons r' x := by
+        refine Desc.closed (S := fun y => ∃ r', r' ∈ rest ∧ Desc s.sons r' y) ?_ hd ⟨r, hr', Desc.refl _⟩
+        intro b c ⟨r', hr', hb⟩ hc
+        have hsb : Stored s b := Or.inr ⟨r', (h.restSub r' hr').1, hb⟩
+        rcases place_sons_sub hne hc with ⟨e, _⟩ | ⟨_, e1, _⟩ | ⟨_, hcs⟩
+        · subst e; exact (h.fresh hsb).elim
+        · subst e1
+          have := hI.top_unique (Or.inl rfl) (Or.inr (h.restSub r' hr').1) hmain hb
+          rw [← this] at hr'
+          exact (hI.rootNotOrph (h.restSub _ hr').1).elim
+        · exact ⟨r', hr', Desc.tail hb hcs⟩
+      obtain ⟨r', hr', hd'⟩ := this
+      exact h.omSub x (hI.omap x ⟨r', (h.restSub r' hr').1, hd'⟩)
+    · have hnom : node ∈ om := by
+        rcases hrest with ⟨_, _, h1⟩ | ⟨_, _, _, h1⟩
+        · exact h1
+        · exact h1
+      have hQ : (∃ r', r' ∈ rest ∧ Desc s.sons r' x) ∨ x = node ∨ (∃ k, k ∈ kids ∧ Desc s.sons k x) := by
+        refine Desc.closed (S := fun y => (∃ r', r' ∈ rest ∧ Desc s.sons r' y) ∨ y = node ∨
+          (∃ k, k ∈ kids ∧ Desc s.sons k y)) ?_ hd ?_
+        · intro b c hb hc
+          rcases place_sons_sub hne hc with ⟨_, hk⟩ | ⟨_, _, e⟩ | ⟨hbn, hcs⟩
+          · exact Or.inr (Or.inr ⟨c, hk, Desc.refl _⟩)
+          · exact Or.inr (Or.inl e)
+          · rcases hb with ⟨r', hr', h1⟩ | h1 | ⟨k, hk, h1⟩
+            · exact Or.inl ⟨r', hr', Desc.tail h1 hcs⟩
+            · exact (hbn h1).elim
+            · exact Or.inr (Or.inr ⟨k, hk, Desc.tail h1 hcs⟩)
+        · rcases place_orphans_mem hr with h3 | ⟨_, e⟩
+          · exact Or.inl ⟨r, h3, Desc.refl _⟩
+          · exact Or.inr (Or.inl e)
+      rcases hQ with ⟨r', hr', h1⟩ | h1 | ⟨k, hk, h1⟩
+      · exact h.omSub x (hI.omap x ⟨r', (h.restSub r' hr').1, h1⟩)
+      · subst h1; exact hnom
+      · exact h.omSub x (hI.omap x ⟨k, (h.kidsSub k hk).1, h1⟩)
+  · -- tbl
+    intro x hx
+    change x ∈ addTbl s.tbl node
+    rw [mem_addTbl]
+    rcases h.Q_stored (place_stored_Q hne hx) with h1 | h1
+    · exact Or.inl (hI.tbl x h1)
+    · exact Or.inr h1
+
+end place
+
+/-! ### every operation preserves the invariant -/
+
+theorem isKid_iff {W : World} {node r : Nat} : isKid W node r = true ↔ (W r).parent = some node := by
+  unfold isKid; exact beq_iff_eq
+
+theorem derive_tree (W : World) (s : St) (id : Nat) :
+    (derive W s id).sons = s.sons ∧ (derive W s id).root = s.root ∧ (derive W s id).orphans = s.orphans ∧
+    (derive W s id).omap = s.omap ∧ (derive W s id).tbl = s.tbl ∧ (derive W s id).pm = s.pm ∧
+    (derive W s id).genesis = s.genesis := by
+  simp [derive]
+
+theorem updateHighQC_tree (W : World) (s : St) (id : Nat) :
+    (updateHighQC W s id).sons = s.sons ∧ (updateHighQC W s id).root = s.root ∧
+    (updateHighQC W s id).orphans = s.orphans ∧ (updateHighQC W s id).omap = s.omap ∧
+    (updateHighQC W s id).tbl = s.tbl ∧ (updateHighQC W s id).pm = s.pm ∧
+    (updateHighQC W s id).genesis = s.genesis := by
+  unfold updateHighQC
+  split
+  · simp
+  · split
+    · simp
+    · exact derive_tree W s id
+
+theorem updateHighQC_inv {W : World} {s : St} (h : Inv W s) (id : Nat) : Inv W (updateHighQC W s id) := by
+  obtain ⟨h1, h2, h3, h4, h5, _⟩ := updateHighQC_tree W s id
+  exact h.of_eq h1 h2 h3 h4 h5
+
+theorem enforce_inv {W : World} {s : St} (h : Inv W s) (id : Nat) : Inv W (enforceUpdateHighQC W s id).1 := by
+  unfold enforceUpdateHighQC
+  split
+  · exact h
+  · obtain ⟨h1, h2, h3, h4, h5, _⟩ := derive_tree W s id
+    exact h.of_eq h1 h2 h3 h4 h5
+
+theorem advanceView_inv {W : World} {s : St} (h : Inv W s) (r : Int) : Inv W (advanceView s r) :=
+  h.of_eq rfl rfl rfl rfl rfl
+
+section ops
+variable {W : World} {rk : Nat → Nat} (hrk : ∀ x p, (W x).parent = some p → rk p < rk x)
+include hrk
+
+theorem insertMain_hyp {s : St} (h : Inv W s) {node p : Nat} (hp : (W node).parent = some p)
+    (hn : inMain s node = false) (hpm : inMain s p = true) :
+    PlaceHyp W s node p (s.orphans.filter (isKid W node)) (s.orphans.filter (fun r => !isKid W node r)) true s.omap := by
+  have hpM : InMain s p := (inMain_iff hrk h p).mp hpm
+  have hnM : ¬ InMain s node := by
+    intro hx; rw [(inMain_iff hrk h node).mpr hx] at hn; cases hn
+  have hlt := hrk _ _ hp
+  refine
+    { inv := h, par := hp, ne := (by intro e; rw [e] at hlt; omega), fresh := ?_, kidsSub := ?_, restSub := ?_,
+      kidsNodup := h.orphNodup.filter _, restNodup := h.orphNodup.filter _, kidsNotAbove := ?_,
+      omSub := fun _ hx => hx, cases := Or.inl ⟨rfl, hpM⟩ }
+  · rintro (hx | ⟨r, hr, hx⟩)
+    · exact hnM hx
+    · rcases hx.cases_tail with e | ⟨b, hb, hc⟩
+      · subst e; exact h.orphParent node hr p hp (Or.inl hpM)
+      · have e1 := h.edge _ _ hc
+        have : b = p := by rw [hp] at e1; exact (Option.some.inj e1).symm
+        subst this
+        have := h.top_unique (Or.inl rfl) (Or.inr hr) hpM hb
+        rw [← this] at hr
+        exact h.rootNotOrph hr
+  · intro k hk
+    rw [List.mem_filter] at hk
+    exact ⟨hk.1, isKid_iff.mp hk.2⟩
+  · intro r hr
+    rw [List.mem_filter] at hr
+    refine ⟨hr.1, ?_⟩
+    intro e
+    have := isKid_iff.mpr e
+    simp [this] at hr
+  · intro k hk hd
+    rw [List.mem_filter] at hk
+    have h1 := hrk _ _ (isKid_iff.mp hk.2)
+    have h2 := desc_rank_le hrk h.edge hd
+    omega
+
+theorem insertMain_inv {s : St} (h : Inv W s) {node p : Nat} (hp : (W node).parent = some p)
+    (hn : inMain s node = false) (hpm : inMain s p = true) : Inv W (insertMain W s node p) :=
+  place_inv (insertMain_hyp hrk h hp hn hpm)
+
+/-- the three outcomes of `insertOrphan` -/
+theorem insertOrphan_cases {s : St} (h : Inv W s) {node p : Nat} (hp : (W node).parent = some p)
+    (hn : inMain s node = false) (hpm : inMain s p = false) :
+    insertOrphan W s node p = s ∧ node ∈ s.omap ∨
+    ∃ kids rest attach, insertOrphan W s node p = place s node p kids rest attach (node :: s.omap) ∧
+      PlaceHyp W s node p kids rest attach (node :: s.omap) ∧ node ∉ s.omap ∧
+      (∀ r, r ∈ rest ↔ (r ∈ s.orphans ∧ expired W s r = false ∧ (W r).parent ≠ some node)) ∧
+      (∀ k, k ∈ kids ↔ (k ∈ s.orphans ∧ expired W s k = false ∧ (W k).parent = some node)) := by
+  by_cases hom : node ∈ s.omap
+  · left; unfold insertOrphan; simp [hom]
+  · right
+    have hpM : ¬ InMain s p := by
+      intro hx; rw [(inMain_iff hrk h p).mpr hx] at hpm; cases hpm
+    have hnM : ¬ InMain s node := by
+      intro hx; rw [(inMain_iff hrk h node).mpr hx] at hn; cases hn
+    have hlt := hrk _ _ hp
+    let live := s.orphans.filter (fun r => !expired W s r)
+    let kids := live.filter (isKid W node)
+    let rest := live.filter (fun r => !isKid W node r)
+    have hrest : ∀ r, r ∈ rest ↔ (r ∈ s.orphans ∧ expired W s r = false ∧ (W r).parent ≠ some node) := by
+      intro r
+      simp only [rest, live, List.mem_filter, Bool.not_eq_true', and_assoc]
+      constructor
+      · rintro ⟨h1, h2, h3⟩
+        refine ⟨h1, h2, ?_⟩
+        intro e; rw [isKid_iff.mpr e] at h3; cases h3
+      · rintro ⟨h1, h2, h3⟩
+        refine ⟨h1, h2, ?_⟩
+        cases hk : isKid W node r with
+        | false => rfl
+        | true => exact (h3 (isKid_iff.mp hk)).elim
+    have hkids : ∀ k, k ∈ kids ↔ (k ∈ s.orphans ∧ expired W s k = false ∧ (W k).parent = some node) := by
+      intro k
+      simp only [kids, live, List.mem_filter, Bool.not_eq_true', and_assoc, isKid_iff]
+    have hyp : ∀ attach, ((attach = true ∧ (∃ r, r ∈ rest ∧ Desc s.sons r p)) ∨
+        (attach = false ∧ (∀ r, r ∈ rest → ¬ Desc s.sons r p))) →
+        PlaceHyp W s node p kids rest attach (node :: s.omap) := by
+      intro attach hc
+      refine
+        { inv := h, par := hp, ne := (by intro e; rw [e] at hlt; omega), fresh := ?_, kidsSub := ?_, restSub := ?_,
+          kidsNodup := (h.orphNodup.filter _).filter _, restNodup := (h.orphNodup.filter _).filter _,
+          kidsNotAbove := ?_, omSub := fun _ hx => List.mem_cons_of_mem _ hx, cases := ?_ }
+      · rintro (hx | hx)
+        · exact hnM hx
+        · exact hom (h.omap node hx)
+      · intro k hk
+        have := (hkids k).mp hk
+        exact ⟨this.1, this.2.2⟩
+      · intro r hr
+        have := (hrest r).mp hr
+        exact ⟨this.1, this.2.2⟩
+      · intro k hk hd
+        have h1 := hrk _ _ ((hkids k).mp hk).2.2
+        have h2 := desc_rank_le hrk h.edge hd
+        omega
+      · rcases hc with ⟨ha, hex⟩ | ⟨ha, hall⟩
+        · exact Or.inr (Or.inl ⟨ha, hex, List.mem_cons_self⟩)
+        · exact Or.inr (Or.inr ⟨ha, hpM, hall, List.mem_cons_self⟩)
+    by_cases hany : rest.any (fun r => inTree s r p) = true
+    · refine ⟨kids, rest, true, ?_, hyp true (Or.inl ⟨rfl, ?_⟩), hom, hrest, hkids⟩
+      · unfold insertOrphan
+        simp only [hom, if_false]
+        rw [if_pos hany]
+        rfl
+      · rw [List.any_eq_true] at hany
+        obtain ⟨r, hr, hd⟩ := hany
+        exact ⟨r, hr, dfs_sound hd⟩
+    · refine ⟨kids, rest, false, ?_, hyp false (Or.inr ⟨rfl, ?_⟩), hom, hrest, hkids⟩
+      · unfold insertOrphan
+        simp only [hom, if_false]
+        rw [if_neg hany]
+        rfl
+      · intro r hr hd
+        apply hany
+        rw [List.any_eq_true]
+        exact ⟨r, hr, (inTree_iff hrk h ((hrest r).mp hr).1 p).mpr hd⟩
+
+theorem insertOrphan_inv {s : St} (h : Inv W s) {node p : Nat} (hp : (W node).parent = some p)
+    (hn : inMain s node = false) (hpm : inMain s p = false) : Inv W (insertOrphan W s node p) := by
+  rcases insertOrphan_cases hrk h hp hn hpm with ⟨e, _⟩ | ⟨kids, rest, attach, e, hyp, _⟩
+  · rw [e]; exact h
+  · rw [e]; exact place_inv hyp
+
+theorem insert_inv {s s' : St} (h : Inv W s) {node : Nat} (hn : inMain s node = false)
+    (hi : QcTree.insert W s node = some s') : Inv W s' := by
+  unfold QcTree.insert at hi
+  split at hi
+  · cases hi
+  · rename_i p hp
+    split at hi
+    · rename_i hpm
+      cases hi
+      exact insertMain_inv hrk h hp hn hpm
+    · rename_i hpm
+      cases hi
+      exact insertOrphan_inv hrk h hp hn (by simpa using hpm)
+
+theorem updateQcStatus_inv {s : St} (h : Inv W s) (node : Nat) : Inv W (updateQcStatus W s node).1 := by
+  unfold updateQcStatus
+  split
+  · exact h
+  · rename_i hn
+    split
+    · exact h
+    · rename_i s' hi
+      have hs' := insert_inv hrk h (by simpa using hn) hi
+      split
+      · exact hs'
+      · exact updateHighQC_inv hs' _
+
+end ops
+
+theorem anc_some {W : World} {s : St} {x p : Nat} (h : anc W s x = some p) :
+    (W x).parent = some p ∧ inMain s p = true := by
+  unfold anc at h
+  split at h
+  · cases h
+  · rename_i q hq
+    split at h
+    · cases h; exact ⟨hq, by assumption⟩
+    · cases h
+
+/-- what `updateCommit` does when it does anything -/
+theorem updateCommit_cases (W : World) (s : St) (id : Nat) :
+    updateCommit W s id = s ∨
+    ∃ ppp pppp, updateCommit W s id = { s with sons := upd s.sons pppp [], root := ppp } ∧
+      inMain s ppp = true ∧ (W ppp).parent = some pppp ∧ inMain s pppp = true := by
+  unfold updateCommit
+  split
+  · exact Or.inl rfl
+  · dsimp only
+    cases h3 : ((anc W s id).bind (anc W s)).bind (anc W s) with
+    | none => exact Or.inl rfl
+    | some ppp =>
+      have hin : inMain s ppp = true := by
+        obtain ⟨pp, _, hpp⟩ := Option.bind_eq_some_iff.mp h3
+        exact (anc_some hpp).2
+      cases h4 : anc W s ppp with
+      | none => left; simp [h4]
+      | some pppp =>
+        right
+        refine ⟨ppp, pppp, ?_, hin, (anc_some h4).1, (anc_some h4).2⟩
+        simp [h4]
+
+theorem updateCommit_inv {W : World} {s : St} (h : Inv W s) (id : Nat) : Inv W (updateCommit W s id) := by
+  rcases updateCommit_cases W s id with e | ⟨ppp, pppp, e, h1, h2, _⟩
+  · rw [e]; exact h
+  · rw [e]
+    have hppp : InMain s ppp := dfs_sound h1
+    have hsub : ∀ b c, c ∈ upd s.sons pppp [] b → c ∈ s.sons b := by
+      intro b c hc
+      unfold upd at hc
+      split at hc
+      · simp at hc
+      · exact hc
+    have hdesc : ∀ a x, Desc (upd s.sons pppp []) a x → Desc s.sons a x := by
+      intro a x hd
+      exact Desc.mono (S := fun _ => True) (fun _ _ _ _ => trivial) (fun b c _ hc => hsub b c hc) hd trivial
+    have hst : ∀ x, Stored { s with sons := upd s.sons pppp [], root := ppp } x → Stored s x := by
+      rintro x (hx | ⟨r, hr, hx⟩)
+      · exact Or.inl (Desc.trans hppp (hdesc _ _ hx))
+      · exact Or.inr ⟨r, hr, hdesc _ _ hx⟩
+    have hpppNotOrph : ppp ∉ s.orphans := by
+      intro hm
+      have := h.top_unique (Or.inl rfl) (Or.inr hm) hppp (Desc.refl _)
+      rw [← this] at hm
+      exact h.rootNotOrph hm
+    constructor
+    · intro b c hc; exact h.edge b c (hsub b c hc)
+    · intro b
+      show (upd s.sons pppp [] b).Nodup
+      unfold upd
+      split
+      · simp
+      · exact h.sonsNodup b
+    · exact h.orphNodup
+    · intro a c ha hc
+      have hc' : c ∈ upd s.sons pppp [] a := hc
+      have hcs := hsub a c hc'
+      have := h.top a c (hst a ha) hcs
+      refine ⟨?_, this.2⟩
+      show c ≠ ppp
+      intro e; subst e
+      have e1 := h.edge _ _ hcs
+      rw [h2] at e1
+      have : a = pppp := (Option.some.inj e1).symm
+      subst this
+      unfold upd at hc'
+      simp at hc'
+    · exact hpppNotOrph
+    · intro r hr q hq hsq
+      exact h.orphParent r hr q hq (hst q hsq)
+    · rintro x ⟨r, hr, hx⟩
+      exact h.omap x ⟨r, hr, hdesc _ _ hx⟩
+    · intro x hx
+      exact h.tbl x (hst x hx)
+
+theorem init_inv (W : World) (g : Nat) : Inv W (init g) := by
+  have hd : ∀ a x, Desc (init g).sons a x → x = a := by
+    intro a x h
+    cases h with
+    | refl => rfl
+    | step hc _ => simp [init] at hc
+  constructor
+  · intro a c hc; simp [init] at hc
+  · intro a; simp [init]
+  · simp [init]
+  · intro a c _ hc; simp [init] at hc
+  · simp [init]
+  · intro r hr; simp [init] at hr
+  · rintro x ⟨r, hr, _⟩; simp [init] at hr
+  · rintro x (hx | ⟨r, hr, _⟩)
+    · have := hd _ _ hx
+      subst this
+      simp [init]
+    · simp [init] at hr
+
+section reach
+variable {W : World} {rk : Nat → Nat} (hrk : ∀ x p, (W x).parent = some p → rk p < rk x)
+include hrk
+
+theorem stepOp_inv {s : St} (h : Inv W s) (o : Op) : Inv W (stepOp W s o).1 := by
+  cases o with
+  | ins id => exact updateQcStatus_inv hrk h id
+  | high id => exact updateHighQC_inv h id
+  | enforce id => exact enforce_inv h id
+  | commit id => exact updateCommit_inv h id
+  | prop id pview c =>
+    simp only [stepOp]
+    split
+    · exact h
+    · apply updateQcStatus_inv hrk
+      split
+      · exact updateCommit_inv (advanceView_inv h _) _
+      · exact advanceView_inv h _
+  | vote id =>
+    simp only [stepOp]
+    split
+    · exact h
+    · exact updateHighQC_inv (advanceView_inv h _) _
+  | pm v => exact advanceView_inv h v
+
+theorem run_inv {s : St} (h : Inv W s) (ops : List Op) : Inv W (run W s ops) := by
+  induction ops generalizing s with
+  | nil => exact h
+  | cons o ops ih => exact ih (stepOp_inv hrk h o)
+
+end reach
 
 end XV.C15
